@@ -95,6 +95,7 @@ type evHist struct {
 	main    string
 	wrongG  atomic.Int64 // callbacks that ran on the wrong side (pool worker vs. caller of Trigger)
 	script  map[int][]int // directed cases: hook id -> hooks it unhooks inside its callback (first invocation only)
+	scriptF map[int]func() // directed cases: hook id -> operations it performs inside its callback (first invocation only)
 }
 
 func (h *evHist) emit(s string) { h.acts = append(h.acts, s) }
@@ -158,6 +159,11 @@ func (h *evHist) hook(e int, max uint64, po string) {
 			for _, x := range l {
 				h.unhook(x)
 			}
+		} else if f, ok := h.scriptF[id]; ok {
+			delete(h.scriptF, id)
+			h.depth++
+			f()
+			h.depth--
 		} else {
 			h.inCallback(id)
 		}
@@ -443,6 +449,49 @@ func runEventHistory(r *vx.Rng, ops int, directed int) (term string, key string,
 		h.trigger(0)
 		h.linkTo(2, -1)
 		h.trigger(1)
+	case 4:
+		// LinkTo at a chosen position of a running walk: event 1 is linked to event 0; while a Trigger of event 0 stands on a
+		// hook before the link hook / on the link hook itself (= inside a hook of event 1) / on a hook behind it, that hook
+		// re-links event 1 (to the same target, to another one, to none, or twice). The link hook is the last element of
+		// the target's list or is followed by 1..2 hooks. "Exactly once per trigger of the current target, no longer for a
+		// former one" is then a statement about the walker that is under way.
+		h.newEvent(0, false)
+		h.newEvent(vx.Pick(r, []uint64{0, 0, 0, 2, 3}), false)
+		h.newEvent(0, false)
+		var before, inner, behind []int
+		for i, n := 0, r.Intn(3); i < n; i++ {
+			before = append(before, len(h.hooks))
+			h.hook(0, 0, "PDefault")
+		}
+		for i, n := 0, 1+r.Intn(2); i < n; i++ {
+			inner = append(inner, len(h.hooks))
+			h.hook(1, vx.Pick(r, []uint64{0, 0, 0, 1, 2}), "PDefault")
+		}
+		if r.Chance(1, 3) {
+			h.linkTo(1, 2) // the link to event 0 is then already a re-link
+		}
+		h.linkTo(1, 0)
+		for i, n := 0, vx.Pick(r, []int{0, 0, 0, 1, 2}); i < n; i++ {
+			behind = append(behind, len(h.hooks))
+			h.hook(0, 0, "PDefault")
+		}
+		pos := [][]int{inner, inner, before, behind}
+		h.scriptF = map[int]func(){}
+		for i, n := 0, 1+r.Intn(2); i < n; i++ {
+			at := vx.Pick(r, pos)
+			if len(at) == 0 {
+				at = inner
+			}
+			tgts := vx.Pick(r, [][]int{{0}, {0}, {0}, {2}, {-1}, {0, 0}, {2, 0}, {-1, 0}})
+			h.scriptF[vx.Pick(r, at)] = func() {
+				for _, t := range tgts {
+					h.linkTo(1, t)
+				}
+			}
+		}
+		for i, n := 0, 2+r.Intn(2); i < n; i++ {
+			h.trigger(vx.Pick(r, []int{0, 0, 0, 2, 1}))
+		}
 	default:
 		h.newEvent(vx.Pick(r, []uint64{0, 0, 0, 2, 3}), false)
 		if r.Bool() {
